@@ -25,6 +25,7 @@
 #include "common/ser_includes.hpp"
 #include <opm/input/eclipse/EclipseState/EclipseState.hpp>
 #include <opm/input/eclipse/EclipseState/Grid/FieldPropsManager.hpp>
+#include <opm/input/eclipse/EclipseState/Grid/FieldProps.hpp>
 #include <opm/input/eclipse/EclipseState/Grid/EclipseGrid.hpp>
 #include <opm/input/eclipse/Schedule/Schedule.hpp>
 #include <opm/input/eclipse/Schedule/ScheduleState.hpp>
@@ -122,7 +123,7 @@ struct Sys {
     double L, T, P, Tscale, Toff, mass, Vl, Vg, Vr, E, mol;
     bool btu;   // energy unit is the BTU (two accepted values)
 };
-static const Sys SYS[4] = {
+static Sys SYS[4] = {
     {"METRIC", metre, day, bar, kelvinPerCelsius, celsiusZero, kilogram, m3, m3, m3, kJ, kgmol, false},
     {"FIELD", foot, day, psi, kelvinPerFahrenheit, fahrenheitZero, pound, stb, Mscf, stb, BTU_th, lbmol, true},
     {"LAB", cm, hour, atm, kelvinPerCelsius, celsiusZero, gram, cc, cc, cc, joule, gmol, false},
@@ -334,6 +335,13 @@ inline NameVal unitName(const std::string& raw) {
 }
 } // namespace ref
 
+// The size of the BTU is judged in part=tables (either definition, 7 digits).  The re-expression parts write FIELD numbers
+// with the BTU the library uses - provided it is one of the two - so that they can demand 1e-12 for everything else.
+static void calibrateBtu(const UnitSystem& field) {
+    const double lib = field.to_si("Energy", 1.0);
+    if (vh::reldiff(lib, ref::BTU_th) <= 1e-6 || vh::reldiff(lib, ref::BTU_IT) <= 1e-6) ref::SYS[1].E = lib;
+}
+
 static const UnitSystem::UnitType UTYPE[4] = {UnitSystem::UnitType::UNIT_TYPE_METRIC, UnitSystem::UnitType::UNIT_TYPE_FIELD,
                                               UnitSystem::UnitType::UNIT_TYPE_LAB, UnitSystem::UnitType::UNIT_TYPE_PVT_M};
 
@@ -528,16 +536,27 @@ static int runTables(const vh::Args& args, vh::Reporter& rep, Env& env) {
             } catch (const std::exception&) { ++unreadable; json.push_back({"?" + path, path, 1}); }
         }
     }
+    // the unit strings of the field-property keyword table (used for the scalars of EQUALS / ADD / MINVALUE ... and box operations)
+    std::vector<std::pair<std::string, std::string>> fpUnits;
+    {
+        namespace K = Fieldprops::keywords;
+        std::map<std::string, std::string> m;
+        for (const auto* tab : {&K::GRID::double_keywords, &K::EDIT::double_keywords, &K::PROPS::double_keywords, &K::SOLUTION::double_keywords, &K::SCHEDULE::double_keywords})
+            for (const auto& kv : *tab) if (kv.second.unit) m[kv.first] = *kv.second.unit;
+        fpUnits.assign(m.begin(), m.end());
+    }
     const long nSM = 4L * ref::NMEASURE;
     const long nSD = 4L * (long)env.dimStrings.size();
     const long nJ = (long)json.size();
-    const long E = nSM + nSD + nJ + 1;     // + 1: the converse of (d) and the census of the keyword directory
+    const long nFP = (long)fpUnits.size();
+    const long E = nSM + nSD + nJ + 1 + nFP;     // + 1: the converse of (d) and the census of the keyword directory
     if (args.shard == 0 && args.start == 0) {
         rep.count("enumerated_cases_total", E);
         rep.count("enumeration_complete", args.cases >= E ? 1 : 0);
         rep.count("dimension_strings_collected", (long)env.dimStrings.size());
         rep.count("keyword_list_files", listFiles);
         rep.count("keyword_list_names", nJ);
+        rep.count("fieldprops_unit_strings", nFP);
     }
     if (listPath.empty() || nJ == 0) { fprintf(stderr, "c02_units: keyword_list.argv not found\n"); return 2; }
 
@@ -792,6 +811,36 @@ static int runTables(const vh::Args& args, vh::Reporter& rep, Env& env) {
             rep.count("json_files_not_in_build_list", notListed);
             rep.case_done(vh::fnv("census"), false);
             (void)missing;
+            return;
+        }
+        // ------------------------------------------------------------------------------ (c) field-property keyword units
+        if (idx < E) {
+            const auto& [kwn, unit] = fpUnits[idx - (nSM + nSD + nJ + 1)];
+            rep.cover("fieldprops_unit", kwn + ":" + unit);
+            std::ostringstream w; w.precision(17);
+            w << "field property keyword " << kwn << ": unit string '" << unit << "' in the field-property keyword table\n";
+            // the dimension the keyword definition gives to the array itself
+            std::string kdim;
+            if (env.parser.hasKeyword(kwn)) { const auto& pk = env.parser.getKeyword(kwn); if (pk.begin() != pk.end() && pk.getRecord(0).size() > 0 && pk.getRecord(0).get(0).dimensions().size() == 1) kdim = pk.getRecord(0).get(0).dimensions()[0]; }
+            w << "dimension of the keyword's data item: '" << kdim << "'\n";
+            bool nontrivial = false;
+            for (int s = 0; s < 4; ++s) {
+                const UnitSystem& u = env.us[s];
+                Dimension du;
+                try { du = u.parse(unit); (void)du.getSIScaling(); }
+                catch (const std::exception& e) { rep.violation("fieldprops-unit-refused:" + kwn, "unit string '" + unit + "' of field property " + kwn + " is refused by UnitSystem::parse: " + e.what(), w.str()); break; }
+                rep.count("comparisons_fieldprops_units");
+                if (du.getSIScaling() != 1.0 || du.getSIOffset() != 0.0) nontrivial = true;
+                if (kdim.empty() || kdim == "ContextDependent") continue;
+                Dimension dk = u.parse(kdim);
+                // scalars applied to the array (EQUALS PERMX 100) and the array itself (PERMX 100 ...) must convert alike
+                if (vh::reldiff(du.getSIScaling(), dk.getSIScaling()) > 16 * EPS || du.getSIOffset() != dk.getSIOffset()) {
+                    w << SYSKEY[s] << ": table unit converts with " << du.getSIScaling() << "/" << du.getSIOffset() << ", keyword dimension with " << dk.getSIScaling() << "/" << dk.getSIOffset() << "\n";
+                    rep.violation("fieldprops-unit-vs-keyword:" + kwn, "in " + std::string(SYSKEY[s]) + " a scalar applied to " + kwn + " (EQUALS/ADD ...) is converted as '" + unit + "' (" + g17(du.getSIScaling()) + ") but the array data as '" + kdim + "' (" + g17(dk.getSIScaling()) + ")", w.str());
+                    break;
+                }
+            }
+            rep.case_done(vh::fnv("FP:" + kwn), nontrivial);
             return;
         }
         // ------------------------------------------------------------------------------ random probing
@@ -1074,11 +1123,8 @@ static int runKw(const vh::Args& args, vh::Reporter& rep, Env& env) {
                     // the property: same SI value whatever the deck unit system (1e-12 relative; for temperatures relative to the offset)
                     if (s > 0) {
                         double e = vh::reldiff(a, b, fl);
-                        // a FIELD value that involves the BTU was written with the reference's BTU: 7 significant digits (see ref::)
-                        int ep = 0;
-                        if (haveEx && !isDef) ep = std::abs(ref::parse(ref::SYS[s], dim).energyPower);
-                        if (ep == 0) rep.maxof("max_rel_diff_between_systems", e);
-                        if (!(e <= (ep ? 1e-6 * ep : 1e-12))) {
+                        rep.maxof("max_rel_diff_between_systems", e);
+                        if (!(e <= 1e-12)) {
                             o << name << " record " << r << " item " << i << " value " << j << " (dimension " << dim << (isDef ? ", defaulted" : "") << "): SI " << a << " in " << SYSKEY[s] << " but " << b << " in METRIC";
                             rep.violation(std::string(isDef ? "kw-default-si-differs:" : "kw-si-differs:") + SYSKEY[s] + ":" + dim, o.str(), witness + o.str() + "\n");
                         }
@@ -1087,9 +1133,7 @@ static int runKw(const vh::Args& args, vh::Reporter& rep, Env& env) {
                     if (haveEx && ex->second.known) {
                         double e = vh::reldiff(a, ex->second.si, fl);
                         rep.maxof("max_rel_diff_to_reference", e);
-                        ref::Dim dd = ref::parse(ref::SYS[s], dim);
-                        const double tol = dd.energyPower && !isDef ? 1e-6 * std::abs(dd.energyPower) : 1e-12;
-                        if (!(e <= tol)) {
+                        if (!(e <= 1e-12)) {
                             o << name << " record " << r << " item " << i << " value " << j << " (dimension " << dim << (isDef ? ", defaulted" : "") << "): SI " << a << " in " << SYSKEY[s] << ", the unit definitions give " << ex->second.si;
                             rep.violation(std::string(isDef ? "kw-default-si-vs-reference:" : "kw-si-vs-reference:") + SYSKEY[s] + ":" + dim, o.str(), witness + o.str() + "\n");
                         }
@@ -1152,6 +1196,9 @@ struct PhysText {
 struct ModelInfo {
     int nx = 2, ny = 2, nz = 2;
     std::vector<std::string> features;
+    // the model changes, with WELTARG, a limit of P1 whose item was defaulted in the preceding WCONPROD (names the situation in keys)
+    std::set<std::string> weltargOnDefaultedItem;
+    bool addTempi = false;     // ADD is applied to the initial temperature (names the situation in keys)
 };
 
 // The model.  All numbers are SI; the dimension strings are the harness's statement of the physical dimension of the
@@ -1162,7 +1209,9 @@ static PhysText generateModel(Rng& rng, ModelInfo& mi) {
     auto LU = [&](double a, double b) { return rng.loguniform(a, b); };
     auto feat = [&](const char* f) { mi.features.push_back(f); };
     // value or default (the choice is the same in all four renderings)
-    auto vd = [&](double si, const char* dim, double pdef = 0.3) { if (rng.chance(pdef)) p.d(); else p.v(si, dim); };
+    auto vd = [&](double si, const char* dim, double pdef = 0.3) { if (rng.chance(pdef)) { p.d(); return true; } p.v(si, dim); return false; };
+    bool p1Defaulted[7] = {true, true, true, true, true, true, true};   // ORAT WRAT GRAT LRAT RESV BHP THP of P1's current WCONPROD
+    bool i1ResvDefaulted = true;                                        // RESV of I1's current WCONINJE
     const int nx = mi.nx = 2 + (int)rng.below(3), ny = mi.ny = 2 + (int)rng.below(2), nz = mi.nz = 2 + (int)rng.below(3);
     const int n = nx * ny * nz;
     const bool disgas = rng.chance(0.7), vapoil = rng.chance(0.4);
@@ -1170,14 +1219,15 @@ static PhysText generateModel(Rng& rng, ModelInfo& mi) {
     const bool familyTwo = rng.chance(0.3);
     const bool equil = rng.chance(0.6);
     const int ntpvt = 1 + (int)rng.below(2), ntsfun = 1 + (int)rng.below(2);
-    const double P0 = U(1.5e7, 3.5e7), top = U(1500, 2500);
+    // shallow and thick cells: cell thickness and volume are differences of depths, keep their condition number ~100
+    const double P0 = U(1.5e7, 3.5e7), top = U(200, 600);
     p.t("RUNSPEC\nTITLE\n C02 physical model\nDIMENS\n " + std::to_string(nx) + " " + std::to_string(ny) + " " + std::to_string(nz) + " /\nOIL\nWATER\nGAS\n");
     if (disgas) p.t("DISGAS\n");
     if (vapoil) p.t("VAPOIL\n");
     if (polymer) { p.t("POLYMER\n"); feat("POLYMER"); }
     if (network) { p.t("NETWORK\n 5 5 /\n"); feat("NETWORK"); }
     p.t("@UNITS@\nSTART\n 1 'JAN' 2020 /\nTABDIMS\n " + std::to_string(ntsfun) + " " + std::to_string(ntpvt) + " 20 20 /\nEQLDIMS\n 1 /\nWELLDIMS\n 10 10 5 10 /\nWSEGDIMS\n 3 10 5 /\n");
-    p.t("VFPPDIMS\n 5 5 5 5 5 3 /\nVFPIDIMS\n 5 5 3 /\n");
+    p.t("VFPPDIMS\n 5 5 5 5 5 3 /\nVFPIDIMS\n 5 5 3 /\nREGDIMS\n/\n");
     if (aquifer) { p.t("AQUDIMS\n 1* 1* 1* 1* 3 20 /\n"); }
     p.t("GRID\nINIT\n");
     // ---------------------------------------------------------------- GRID
@@ -1186,7 +1236,7 @@ static PhysText generateModel(Rng& rng, ModelInfo& mi) {
         for (int i = 0; i < cnt; ++i) { p.v(logu ? LU(a, b) : U(a, b), dim); if (i % 8 == 7) p.t("\n"); }
         p.t(" /\n");
     };
-    cellArray("DX", n, 20, 200, "Length"); cellArray("DY", n, 20, 200, "Length"); cellArray("DZ", n, 2, 30, "Length");
+    cellArray("DX", n, 20, 200, "Length"); cellArray("DY", n, 20, 200, "Length"); cellArray("DZ", n, 5, 30, "Length");
     p.t("TOPS\n"); for (int i = 0; i < nx * ny; ++i) p.v(top + U(0, 20), "Length"); p.t(" /\n");
     cellArray("PORO", n, 0.05, 0.35, "1");
     cellArray("PERMX", n, 1e-15, 1e-11, "Permeability", true);
@@ -1212,7 +1262,7 @@ static PhysText generateModel(Rng& rng, ModelInfo& mi) {
     p.t("PROPS\n");
     p.t("DENSITY\n"); for (int t = 0; t < ntpvt; ++t) { vd(U(700, 900), "Density", 0.2); vd(U(1000, 1100), "Density", 0.2); vd(U(0.7, 1.2), "Density", 0.2); p.t(" /\n"); }
     p.t("PVTW\n"); for (int t = 0; t < ntpvt; ++t) { p.v(P0 + U(-1e6, 1e6), "Pressure"); vd(U(1.0, 1.05), "1"); vd(U(3e-10, 6e-10), "1/Pressure"); vd(U(3e-4, 1e-3), "Viscosity"); vd(U(0, 1e-10), "1/Pressure"); p.t(" /\n"); }
-    p.t("ROCK\n"); for (int t = 0; t < ntpvt; ++t) { vd(P0 + U(-1e6, 1e6), "Pressure", 0.2); vd(U(3e-10, 8e-10), "1/Pressure", 0.2); p.t(" /\n"); }
+    p.t("ROCK\n"); for (int t = 0; t < ntpvt; ++t) { vd(P0 + U(-1e6, 1e6), "Pressure", t == 0 ? 0 : 0.2); vd(U(3e-10, 8e-10), "1/Pressure", t == 0 ? 0 : 0.2); p.t(" /\n"); }
     auto satRows = [&](int rows) { std::vector<double> s(rows); double lo = U(0.05, 0.25), hi = 1.0; for (int i = 0; i < rows; ++i) s[i] = lo + (hi - lo) * i / (rows - 1); return s; };
     if (!familyTwo) {
         p.t("SWOF\n");
@@ -1315,6 +1365,8 @@ static PhysText generateModel(Rng& rng, ModelInfo& mi) {
         if (thermalTables) { cellArray("TEMPI", n, 300, 400, "Temperature"); feat("TEMPI"); }
         if (rng.chance(0.5)) { p.t("EQUALS\n 'PRESSURE'").v(U(1.5e7, 3.5e7), "Pressure").t(box()).t("/\nADD\n 'PRESSURE'").v(U(1e5, 1e6), "Pressure").t(box()).t("/\n"); if (disgas) p.t("MULTIPLY\n 'RS'").v(U(0.8, 1.2), "1").t(box()).t("/\n"); feat("SOLUTION-OPS"); }
         if (thermalTables && rng.chance(0.4)) { p.t("EQUALS\n 'TEMPI'").v(U(300, 400), "Temperature").t(box()).t("/\n"); feat("EQUALS-TEMPI"); }
+        // a temperature *difference* added to a temperature: 10 K = 10 degC = 18 degF = 18 degR
+        if (thermalTables && rng.chance(0.3)) { p.t("ADD\n 'TEMPI'").v(U(5, 30), "AbsoluteTemperature").t(box()).t("/\n"); feat("ADD-TEMPI"); mi.addTempi = true; }
     }
     if (aquifer) {
         feat("AQUIFER");
@@ -1346,7 +1398,8 @@ static PhysText generateModel(Rng& rng, ModelInfo& mi) {
         p.t("WELSEGS\n 'P1'").v(top - 10, "Length").v(U(0, 5), "Length"); vd(U(1e-5, 1e-3), "Length*Length*Length", 0.5); p.t(" 'ABS' 'HFA' 'HO' /\n");
         for (int k = 1; k <= nz; ++k) { p.t(" " + std::to_string(k + 1) + " " + std::to_string(k + 1) + " 1 " + std::to_string(k)).v(10.0 * k + 5, "Length").v(top + 10.0 * k, "Length").v(U(0.1, 0.3), "Length").v(LU(1e-5, 1e-3), "Length"); if (rng.chance(0.5)) { vd(U(0.01, 0.07), "Length*Length", 0.3); vd(U(0.05, 1.0), "Length*Length*Length", 0.3); } p.t(" /\n"); }
         p.t("/\nCOMPSEGS\n 'P1' /\n");
-        for (int k = 1; k <= nz; ++k) { p.t(" 1 1 " + std::to_string(k) + " 1").v(10.0 * (k - 1) + 6, "Length").v(10.0 * k + 4, "Length").t(" /\n"); }
+        // connection k (centre at 10k+2) is clearly nearest to segment k+1 (at 10k+5): no ties for rounding to break
+        for (int k = 1; k <= nz; ++k) { p.t(" 1 1 " + std::to_string(k) + " 1").v(10.0 * (k - 1) + 8, "Length").v(10.0 * k + 6, "Length").t(" /\n"); }
         p.t("/\n");
         if (rng.chance(0.5)) { p.t("WSEGVALV\n 'P1' 2").v(U(0.5, 1.0), "1").v(LU(1e-4, 1e-2), "Length*Length"); vd(U(0, 2), "Length", 0.5); vd(U(0.1, 0.2), "Length", 0.5); vd(LU(1e-5, 1e-3), "Length", 0.5); vd(U(0.01, 0.05), "Length*Length", 0.5); p.t(" /\n/\n"); feat("WSEGVALV"); }
         if (nz >= 2 && rng.chance(0.5)) { p.t("WSEGSICD\n 'P1' 3 3").v(LU(1e3, 1e6), "Pressure*Time*Time/Length*Length*Length*Length*Length*Length"); vd(U(5, 20), "Length", 0.5); vd(U(900, 1100), "Density", 0.5); vd(U(5e-4, 2e-3), "Viscosity", 0.5); p.t(" /\n/\n"); feat("WSEGSICD"); }
@@ -1367,17 +1420,22 @@ static PhysText generateModel(Rng& rng, ModelInfo& mi) {
     }
     auto prodControl = [&](const std::string& w) {
         static const char* modes[] = {"ORAT", "WRAT", "GRAT", "LRAT", "RESV", "BHP"};
-        p.t("WCONPROD\n '" + w + "' 'OPEN' '" + modes[rng.below(6)] + "'");
-        vd(LU(1e-4, 1e-2), "LiquidSurfaceVolume/Time", 0.2); vd(LU(1e-4, 1e-2), "LiquidSurfaceVolume/Time", 0.2); vd(LU(1e-2, 1), "GasSurfaceVolume/Time", 0.2); vd(LU(1e-4, 1e-2), "LiquidSurfaceVolume/Time", 0.2);
-        vd(LU(1e-4, 1e-2), "ReservoirVolume/Time", 0.2); vd(U(5e6, 1.5e7), "Pressure", 0.3);
-        if (vfp && rng.chance(0.6)) { p.v(U(1e6, 2e6), "Pressure").t(" 1").v(LU(1e-2, 1e-1), "GasSurfaceVolume/Time"); }
+        const int md = (int)rng.below(6);    // the item of the control mode itself must be given
+        p.t("WCONPROD\n '" + w + "' 'OPEN' '" + modes[md] + "'");
+        bool df[7];
+        df[0] = vd(LU(1e-4, 1e-2), "LiquidSurfaceVolume/Time", md == 0 ? 0 : 0.2); df[1] = vd(LU(1e-4, 1e-2), "LiquidSurfaceVolume/Time", md == 1 ? 0 : 0.2); df[2] = vd(LU(1e-2, 1), "GasSurfaceVolume/Time", md == 2 ? 0 : 0.2); df[3] = vd(LU(1e-4, 1e-2), "LiquidSurfaceVolume/Time", md == 3 ? 0 : 0.2);
+        df[4] = vd(LU(1e-4, 1e-2), "ReservoirVolume/Time", md == 4 ? 0 : 0.2); df[5] = vd(U(5e6, 1.5e7), "Pressure", md == 5 ? 0 : 0.3); df[6] = true;
+        if (vfp && rng.chance(0.6)) { p.v(U(1e6, 2e6), "Pressure").t(" 1").v(LU(1e-2, 1e-1), "GasSurfaceVolume/Time"); df[6] = false; }
+        if (w == "P1") for (int q = 0; q < 7; ++q) p1Defaulted[q] = df[q];
         p.t(" /\n/\n");
     };
     auto injControl = [&](const W& w) {
         static const char* modes[] = {"RATE", "RESV", "BHP"};
-        p.t("WCONINJE\n '" + w.name + "' '" + (w.kind == 'G' ? "GAS" : "WATER") + "' 'OPEN' '" + modes[rng.below(3)] + "'");
+        const int md = (int)rng.below(3);
+        p.t("WCONINJE\n '" + w.name + "' '" + (w.kind == 'G' ? "GAS" : "WATER") + "' 'OPEN' '" + modes[md] + "'");
         p.v(w.kind == 'G' ? LU(1e-1, 10) : LU(1e-4, 1e-2), w.kind == 'G' ? "GasSurfaceVolume/Time" : "LiquidSurfaceVolume/Time");
-        vd(LU(1e-4, 1e-2), "ReservoirVolume/Time", 0.3); vd(U(3e7, 5e7), "Pressure", 0.3); vd(U(1e7, 2e7), "Pressure", 0.5);
+        const bool rd = vd(LU(1e-4, 1e-2), "ReservoirVolume/Time", md == 1 ? 0 : 0.3); vd(U(3e7, 5e7), "Pressure", md == 2 ? 0 : 0.3);
+        if (w.name == "I1") i1ResvDefaulted = rd;
         p.t(" /\n/\n");
     };
     auto histControl = [&](const std::string& w) {
@@ -1390,12 +1448,14 @@ static PhysText generateModel(Rng& rng, ModelInfo& mi) {
     for (int st = 0; st < nsteps; ++st) {
         int nk = 2 + (int)rng.below(6);
         for (int q = 0; q < nk; ++q) {
-            switch (rng.below(24)) {
+            switch (rng.below(25)) {
             case 0: prodControl("P1"); break;
             case 1: histControl("P2"); break;
             case 2: injControl(wells[2 + rng.below(2)]); break;
             case 3: { static const char* m[] = {"ORAT", "WRAT", "GRAT", "LRAT", "RESV", "BHP", "THP"}; static const char* dm[] = {"LiquidSurfaceVolume/Time", "LiquidSurfaceVolume/Time", "GasSurfaceVolume/Time", "LiquidSurfaceVolume/Time", "ReservoirVolume/Time", "Pressure", "Pressure"};
-                      int k = (int)rng.below(7); p.t(std::string("WELTARG\n 'P1' '") + m[k] + "'").v(k == 2 ? LU(1e-2, 1) : (k >= 5 ? U(5e6, 1.5e7) : LU(1e-4, 1e-2)), dm[k]).t(" /\n/\n"); feat("WELTARG"); break; }
+                      int k = (int)rng.below(7); if (!vfp && k == 6) k = 5;   // a THP limit needs a VFP table
+                      if (p1Defaulted[k]) { mi.weltargOnDefaultedItem.insert("P1"); feat("WELTARG-on-item-defaulted-in-WCONPROD"); }
+                      p.t(std::string("WELTARG\n 'P1' '") + m[k] + "'").v(k == 2 ? LU(1e-2, 1) : (k >= 5 ? U(5e6, 1.5e7) : LU(1e-4, 1e-2)), dm[k]).t(" /\n/\n"); feat("WELTARG"); break; }
             case 4: { p.t("GCONPROD\n 'G1' 'ORAT'"); vd(LU(1e-4, 1e-2), "LiquidSurfaceVolume/Time", 0.1); vd(LU(1e-4, 1e-2), "LiquidSurfaceVolume/Time", 0.3); vd(LU(1e-2, 1), "GasSurfaceVolume/Time", 0.3); vd(LU(1e-4, 1e-2), "LiquidSurfaceVolume/Time", 0.3);
                       p.t(" 'RATE' 'YES' 1* ' ' 3*"); vd(LU(1e-4, 1e-2), "ReservoirVolume/Time", 0.5); p.t(" /\n/\n"); feat("GCONPROD"); break; }
             case 5: { bool gas = rng.chance(0.4); p.t(std::string("GCONINJE\n 'G2' '") + (gas ? "GAS" : "WATER") + "' '" + (rng.chance(0.5) ? "RATE" : "RESV") + "'").v(gas ? LU(1e-1, 10) : LU(1e-4, 1e-2), gas ? "GasSurfaceVolume/Time" : "LiquidSurfaceVolume/Time").v(LU(1e-4, 1e-2), "ReservoirVolume/Time");
@@ -1421,6 +1481,9 @@ static PhysText generateModel(Rng& rng, ModelInfo& mi) {
             case 19: { p.t("WEFAC\n 'P1'").v(U(0.5, 1), "1").t(" /\n/\nGEFAC\n 'G1'").v(U(0.5, 1), "1").t(" /\n/\n"); break; }
             case 20: { p.t("GPMAINT\n 'G2' 'WINJ' 1 1*").v(U(1.5e7, 3e7), "Pressure").v(LU(1e-10, 1e-8), "ReservoirVolume/Time*Pressure").v(U(10, 100) * 86400, "Time").t(" /\n/\n"); feat("GPMAINT"); break; }
             case 21: { if (!network) break; p.t("NODEPROP\n 'FIELD'").v(U(2e6, 5e6), "Pressure").t(" /\n/\n"); break; }
+            case 24: { static const char* m[] = {"WRAT", "RESV", "BHP"}; static const char* dm[] = {"LiquidSurfaceVolume/Time", "ReservoirVolume/Time", "Pressure"};
+                       int k = (int)rng.below(3); if (k == 1 && i1ResvDefaulted) { mi.weltargOnDefaultedItem.insert("I1"); feat("WELTARG-on-item-defaulted-in-WCONINJE"); }
+                       p.t(std::string("WELTARG\n 'I1' '") + m[k] + "'").v(k == 2 ? U(3e7, 5e7) : LU(1e-4, 1e-2), dm[k]).t(" /\n/\n"); feat("WELTARG-injector"); break; }
             case 22: { p.t("WELSPECS\n 'P1' 'G1' 1 1").v(top + U(0, 30), "Length").t(" 'OIL'"); vd(U(50, 300), "Length", 0.5); p.t(" /\n/\n"); break; }
             case 23: { p.t("COMPDAT\n 'P2' " + std::to_string(nx) + " 1 1 1 'OPEN' 1*"); vd(LU(1e-13, 1e-11), "Viscosity*ReservoirVolume/Time*Pressure", 0.5); p.v(U(0.1, 0.3), "Length"); p.t(" /\n/\n"); break; }
             }
@@ -1433,10 +1496,11 @@ static PhysText generateModel(Rng& rng, ModelInfo& mi) {
 
 // ---- tolerant structural dump: a visitor with the call interface of Opm::Serializer that flattens any serialisable object
 // into (path, number | text) entries.  Numbers are compared with a relative tolerance, everything else exactly.
-struct Ent { std::string path; bool num = false; double v = 0; std::string txt; };
+struct Ent { std::string path; bool num = false; double v = 0; std::string txt; bool udaNoDim = false; };
 struct NumVisitor {
     std::vector<Ent>& out;
     std::string path;
+    std::vector<int> member;     // index of the serializeOp call inside the enclosing object(s)
     explicit NumVisitor(std::vector<Ent>& o, const std::string& root) : out(o), path(root) {}
     bool isSerializing() const { return true; }
     template <class T> struct is_vec : std::false_type {};
@@ -1468,6 +1532,14 @@ struct NumVisitor {
     struct Scope { NumVisitor& v; std::string saved; Scope(NumVisitor& vv, const std::string& add) : v(vv), saved(vv.path) { v.path += add; } ~Scope() { v.path = saved; } };
 
     template <class T> void operator()(const T& x) {
+        std::string memberTag;
+        if (!member.empty()) memberTag = "#" + std::to_string(member.back()++);
+        Scope msc(*this, memberTag);
+        std::vector<int> savedMember; savedMember.swap(member);      // containers and wrappers do not number their elements
+        struct Restore { std::vector<int>& m; std::vector<int>& s; ~Restore() { m.swap(s); } } restore{member, savedMember};
+        visit(x);
+    }
+    template <class T> void visit(const T& x) {
         using U = std::remove_cv_t<std::remove_reference_t<T>>;
         if constexpr (is_sp<U>::value) { if (x) (*this)(*x); else text("null"); }
         else if constexpr (is_pair<U>::value) { std::apply([this](const auto&... e) { ((this->operator()(e)), ...); }, x); }
@@ -1488,7 +1560,10 @@ struct NumVisitor {
         else if constexpr (std::is_same_v<U, Dimension>) { }                  // conversion factors of the deck's unit system
         else if constexpr (std::is_same_v<U, UDAValue>) {
             // a user defined argument keeps the deck number and its Dimension: the quantity it denotes is getSI()
-            if (x.template is<double>()) { double v; try { v = x.getSI(); } catch (const std::exception&) { v = x.template get<double>(); } number(v); }
+            // A UDA whose Dimension is the identity is either a pure number or an item the library converts later from its
+            // context (injection rate by phase, WELTARG value by mode): marked, see the comparison.
+            if (x.template is<double>()) { double v; try { v = x.getSI(); } catch (const std::exception&) { v = x.template get<double>(); } number(v);
+                                           const auto& dm = x.get_dim(); bool ident = false; try { ident = dm.getSIScaling() == 1.0 && dm.getSIOffset() == 0.0; } catch (const std::exception&) { ident = true; } out.back().udaNoDim = ident; }
             else if (x.template is<std::string>()) text(x.template get<std::string>());
             else text("uda-undefined");
         }
@@ -1506,13 +1581,15 @@ struct NumVisitor {
                 }
             }
         }
-        else if constexpr (std::is_same_v<U, UDQDefine>) { (void)x.input_string(); const_cast<U&>(x).serializeOp(*this); }
+        else if constexpr (std::is_same_v<U, UDQDefine>) { (void)x.input_string(); member.push_back(0); const_cast<U&>(x).serializeOp(*this); member.pop_back(); }
         else if constexpr (has_sop<U>::value) {
             std::string tn = typeid(U).name();
             // keep the readable tail of the mangled name
             size_t q = tn.size(); while (q > 0 && !std::isdigit((unsigned char)tn[q - 1])) --q;
             Scope sc(*this, "/" + tn.substr(q));
+            member.push_back(0);
             const_cast<U&>(x).serializeOp(*this);
+            member.pop_back();
         }
         else if constexpr (std::is_same_v<U, std::string>) { text(x); }
         else if constexpr (std::is_floating_point_v<U>) { number((double)x); }
@@ -1523,8 +1600,8 @@ struct NumVisitor {
     }
 };
 
-struct Section { std::string name; std::vector<Ent> ents; };
-struct ModelObs { bool ok = false; std::string err; std::string stage; std::vector<Section> sections; };
+struct ObsSection { std::string name; std::vector<Ent> ents; };
+struct ModelObs { bool ok = false; std::string err; std::string stage; std::vector<ObsSection> sections; };
 
 static void observeModel(const Parser& parser, const std::string& text, const std::shared_ptr<Python>& python, ModelObs& mo) {
     try {
@@ -1535,27 +1612,36 @@ static void observeModel(const Parser& parser, const std::string& text, const st
         eg.clear();
         // --- Deck: every item of every keyword, SI
         {
-            Section sec; sec.name = "deck";
+            ObsSection sec; sec.name = "deck";
             for (size_t ki = 0; ki < deck.size(); ++ki) {
                 const DeckKeyword& kw = deck[ki];
                 if (kw.name() == "METRIC" || kw.name() == "FIELD" || kw.name() == "LAB" || kw.name() == "PVT-M") continue;
                 size_t r = 0;
+                // items without a dimension in the keyword definition (WCONINJE RATE, WELTARG NEW_VALUE, VFP table bodies ...) have no
+                // SI value at Deck level: the library converts them later from the context; they are observed in the Schedule section
+                std::set<std::string> dimensioned;
+                if (parser.hasKeyword(kw.name())) for (const auto& prec : parser.getKeyword(kw.name())) for (const auto& pit : prec) {
+                    bool ctx = false; for (auto& d : pit.dimensions()) if (d == "ContextDependent") ctx = true;
+                    if (!pit.dimensions().empty() && !ctx) dimensioned.insert(pit.name());
+                }
                 for (const auto& rec : kw) {
                     for (const auto& it : rec) {
                         std::string path = kw.name() + "[" + std::to_string(r) + "]." + it.name();
+                        const bool hasDim = dimensioned.count(it.name()) > 0;
                         for (size_t i = 0; i < it.data_size(); ++i) {
                             Ent e; e.path = path + "[" + std::to_string(i) + "]";
                             const char fl = it.defaultApplied(i) ? 'D' : 'V';
-                            if (!it.hasValue(i)) { e.txt = std::string(1, fl) + "!"; sec.ents.push_back(e); continue; }
+                            if (!it.hasValue(i)) { if (it.getType() != type_tag::string && it.getType() != type_tag::raw_string) { e.txt = std::string(1, fl) + "!"; sec.ents.push_back(e); } continue; }
                             if (it.getType() == type_tag::fdouble) {
                                 Ent f = e; f.txt = std::string(1, fl); sec.ents.push_back(f);
+                                if (!hasDim) continue;
                                 e.num = true;
-                                try { e.v = it.getSIDouble(i); } catch (const std::exception&) { e.v = it.get<double>(i); }
+                                e.v = it.getSIDouble(i);
                                 sec.ents.push_back(e);
                             } else if (it.getType() == type_tag::uda) {
                                 auto u = it.get<UDAValue>(i);
                                 Ent f = e; f.txt = std::string(1, fl); sec.ents.push_back(f);
-                                if (u.is<double>()) { e.num = true; try { e.v = u.getSI(); } catch (const std::exception&) { e.v = u.get<double>(); } sec.ents.push_back(e); }
+                                if (u.is<double>() && hasDim) { e.num = true; e.v = u.getSI(); sec.ents.push_back(e); }
                             } else if (it.getType() == type_tag::integer) { e.txt = fl + std::to_string(it.get<int>(i)); sec.ents.push_back(e); }
                         }
                     }
@@ -1566,9 +1652,9 @@ static void observeModel(const Parser& parser, const std::string& text, const st
         }
         mo.stage = "EclipseState";
         EclipseState es(deck);
-        { Section sec; sec.name = "eclipse-state"; NumVisitor v(sec.ents, "EclipseState"); v(es); mo.sections.push_back(std::move(sec)); }
+        { ObsSection sec; sec.name = "eclipse-state"; NumVisitor v(sec.ents, "EclipseState"); v(es); mo.sections.push_back(std::move(sec)); }
         {
-            Section sec; sec.name = "field-properties";
+            ObsSection sec; sec.name = "field-properties";
             const auto& fp = es.fieldProps();
             auto keys = fp.keys<double>();
             std::sort(keys.begin(), keys.end());
@@ -1578,7 +1664,7 @@ static void observeModel(const Parser& parser, const std::string& text, const st
             mo.sections.push_back(std::move(sec));
         }
         {
-            Section sec; sec.name = "grid";
+            ObsSection sec; sec.name = "grid";
             const auto& g = es.getInputGrid();
             Ent t; t.path = "active"; t.txt = std::to_string(g.getNumActive()); sec.ents.push_back(t);
             for (size_t c = 0; c < g.getCartesianSize(); ++c) {
@@ -1594,7 +1680,7 @@ static void observeModel(const Parser& parser, const std::string& text, const st
         Schedule sched(deck, es, pc, eg, python);
         eg.clear();
         {
-            Section sec; sec.name = "schedule";
+            ObsSection sec; sec.name = "schedule";
             SummaryState st(TimeService::now(), 0.0);
             for (size_t step = 0; step < sched.size(); ++step) {
                 const std::string sp = "step" + std::to_string(step);
@@ -1613,6 +1699,12 @@ static void observeModel(const Parser& parser, const std::string& text, const st
                     auto add = [&](const char* what, double val) { Ent e; e.path = sp + "/" + gn + "/" + what; e.num = true; e.v = val; sec.ents.push_back(e); };
                     if (g.isProductionGroup()) { auto c = g.productionControls(st); add("oil_target", c.oil_target); add("water_target", c.water_target); add("gas_target", c.gas_target); add("liquid_target", c.liquid_target); add("resv_target", c.resv_target); }
                     for (Phase ph : {Phase::WATER, Phase::GAS}) if (g.hasInjectionControl(ph)) { auto c = g.injectionControls(ph, st); add("inj_surface_max_rate", c.surface_max_rate); add("inj_resv_max_rate", c.resv_max_rate); }
+                    // group economic limits (GECON): minimum oil and gas rates, maximum water cut, gas-oil ratio, water-gas ratio
+                    const auto& ge = sched[step].gecon();
+                    if (ge.has_group(gn)) { const auto& q = ge.get_group(gn); auto si = [](const UDAValue& u) { return u.is<double>() ? u.getSI() : 0.0; };
+                        add("gecon_min_oil_rate", si(q.minOilRate())); add("gecon_min_gas_rate", si(q.minGasRate())); add("gecon_max_water_cut", si(q.maxWaterCut())); add("gecon_max_gas_oil_ratio", si(q.maxGasOilRatio())); add("gecon_max_water_gas_ratio", si(q.maxWaterGasRatio())); }
+                    const auto& gc = sched[step].gconsump();
+                    if (gc.has(gn)) { auto q = gc.get(gn, st); add("gconsump_consumption_rate", q.consumption_rate); add("gconsump_import_rate", q.import_rate); }
                 }
             }
             mo.sections.push_back(std::move(sec));
@@ -1626,13 +1718,15 @@ static int runModel(const vh::Args& args, vh::Reporter& rep, Env& env) {
     rep.run_cases([&](long idx, Rng& rng) {
         ModelInfo mi;
         PhysText p = generateModel(rng, mi);
+        const bool vfpUnitsDefaulted = rng.chance(0.3);
         std::string text[4];
         ModelObs obs[4];
         for (int s = 0; s < 4; ++s) {
             text[s] = p.render(s);
             auto rep1 = [&](const std::string& what, const std::string& with) { size_t q; while ((q = text[s].find(what)) != std::string::npos) text[s].replace(q, what.size(), with); };
             rep1("@UNITS@", SYSKEY[s]);
-            rep1("@VFPUNITS@", SYSKEY[s]);
+            // the table's own UNITS item: the deck's system, or defaulted (the library knows no 'PVT-M' tables)
+            rep1("'@VFPUNITS@'", s == 3 || vfpUnitsDefaulted ? std::string("1*") : "'" + std::string(SYSKEY[s]) + "'");
             observeModel(env.parser, text[s], python, obs[s]);
         }
         for (auto& f : mi.features) rep.cover("model_feature", f);
@@ -1660,6 +1754,7 @@ static int runModel(const vh::Args& args, vh::Reporter& rep, Env& env) {
                 bool structural = false;
                 for (size_t i = 0; i < nmin && reported < 3; ++i) {
                     const Ent& a = A[i]; const Ent& b = B[i];
+                    if (a.path == "VFPPROD[0].UNITS[0]" && b.path == a.path) continue;     // written differently on purpose (see rendering)
                     if (a.path != b.path || a.num != b.num || (!a.num && a.txt != b.txt)) {
                         std::string site = a.path; for (auto& c : site) if (std::isdigit((unsigned char)c)) c = '#';
                         rep.violation("model-structure-differs:" + sn + ":" + site.substr(0, 80), sn + ": entry " + a.path + " is '" + (a.num ? g17(a.v) : a.txt) + "' in METRIC but " + b.path + " '" + (b.num ? g17(b.v) : b.txt) + "' in " + SYSKEY[s],
@@ -1668,13 +1763,28 @@ static int runModel(const vh::Args& args, vh::Reporter& rep, Env& env) {
                         break;
                     }
                     if (!a.num) continue;
+                    // 1e-12 for everything that is read and converted.  Cell volumes, thicknesses, centres and pore volumes are
+                    // *computed* from corner coordinates by differences and determinants (condition number up to ~1e4 for a
+                    // 20 m cell 800 m from the origin): 1e-9, centres relative to at least 1 m.
+                    const bool geometry = sn == "grid" || (sn == "field-properties" && a.path.compare(0, 4, "PORV") == 0);
+                    const double tol = geometry ? 1e-9 : 1e-12;
+                    double e = vh::reldiff(a.v, b.v, sn == "grid" ? 1.0 : 0.0);
+                    // a user defined argument without Dimension in both decks: a pure number (equal) or a context dependent
+                    // quantity that is converted on use - those are observed through the evaluated controls below
+                    if (a.udaNoDim && b.udaNoDim && e > 1e-12) { rep.count("uda_without_dimension_not_compared"); continue; }
                     ++compared;
-                    double e = vh::reldiff(a.v, b.v);
-                    rep.maxof("max_rel_diff_" + sn, std::isfinite(e) ? e : 1e300);
-                    if (!(e <= 1e-12)) {
+                    if (e <= tol) rep.maxof(std::string("max_rel_diff_within_tolerance_") + (geometry ? "computed_geometry" : sn.c_str()), e);
+                    if (!(e <= tol)) {
                         std::string site = a.path; for (auto& c : site) if (std::isdigit((unsigned char)c)) c = '#';
                         ++reported;
-                        rep.violation("model-si-differs:" + sn + ":" + site.substr(0, 100), sn + ": " + a.path + " is " + g17(a.v) + " (SI) from the METRIC deck but " + g17(b.v) + " from the " + SYSKEY[s] + " deck (rel. diff " + g17(e) + ")", witness(s));
+                        // the production limits of P1 after a WELTARG on an item that the preceding WCONPROD defaulted: named situation
+                        for (const auto& wn : mi.weltargOnDefaultedItem)
+                            if ((a.path.find("/" + wn + "/") != std::string::npos || a.path.find("{" + wn + "}") != std::string::npos) &&
+                                (a.path.find("WellProductionProperties") != std::string::npos || a.path.find("WellInjectionProperties") != std::string::npos || a.path.find("_rate") != std::string::npos || a.path.find("_limit") != std::string::npos))
+                                site += ":after-WELTARG-on-item-defaulted-in-WCONPROD/WCONINJE";
+                        if (mi.addTempi && sn == "field-properties" && a.path.compare(0, 5, "TEMPI") == 0) site = "TEMPI-after-ADD";
+                        if (site.find(":after-WELTARG") != std::string::npos) site = "well-limit-after-WELTARG-on-item-defaulted-in-WCONPROD/WCONINJE";
+                        rep.violation("model-si-differs:" + sn + ":" + site.substr(0, 140), sn + ": " + a.path + " is " + g17(a.v) + " (SI) from the METRIC deck but " + g17(b.v) + " from the " + SYSKEY[s] + " deck (rel. diff " + g17(e) + ")", witness(s));
                     }
                 }
                 if (!structural && A.size() != B.size()) rep.violation("model-structure-differs:" + sn + ":length", sn + ": " + std::to_string(A.size()) + " entries in METRIC, " + std::to_string(B.size()) + " in " + SYSKEY[s], witness(s));
@@ -1695,8 +1805,8 @@ int main(int argc, char** argv) {
     Env env;
     int rc = 0;
     if (part == "tables") rc = runTables(args, rep, env);
-    else if (part == "kw") rc = runKw(args, rep, env);
-    else if (part == "model") rc = runModel(args, rep, env);
+    else if (part == "kw") { calibrateBtu(env.us[1]); rc = runKw(args, rep, env); }
+    else if (part == "model") { calibrateBtu(env.us[1]); rc = runModel(args, rep, env); }
     else { fprintf(stderr, "c02_units: unknown part '%s'\n", part.c_str()); return 2; }
     rep.finish();
     return rc;
